@@ -700,7 +700,8 @@ def run_property(prop, tier, seed):
         stats['source_drift'] = dict(level=drift_level, **drift_info)
         runs = [(g, seed) for g in spec['groups']]
         if tier == 'quick' and not os.environ.get('VERIF_NO_DRIFT'):
-            for k in range(drift_level):
+            # one additional seed whatever the level (a check on an edited tree then costs at most about twice the usual)
+            for k in range(min(drift_level, 1)):
                 runs += [(g, seed + 1000 * (k + 1)) for g in spec['groups'] if g not in ('tables', 'univ', 'prims')]
         stats['seeds_run'] = sorted({sd for _, sd in runs})
         for g, sd in runs:
